@@ -175,6 +175,49 @@ func genTok(r *vu.Rng) string {
 	return sb.String()
 }
 
+// genTreeNL: the newline class. One element whose content starts with CR / LF combinations, for
+// the elements where the parser or Render treat a leading newline specially (pre, listing, textarea),
+// the other escapable/raw-text elements, and same-named or plain elements in the SVG/MathML namespaces.
+func genTreeNL(r *vu.Rng) string {
+	prefix := []string{"\r", "\r\n", "\n", "\n\n", "\n\r", "\r\r", "\r\n\n", "\n\r\n", ""}[r.Intn(9)]
+	tail := string(r.BytesFrom("abc xyz\n\r09", r.Intn(6)))
+	var items []string
+	closeN := 0
+	open := func(name string) { items = append(items, "<"+name); closeN++ }
+	var el string
+	rich := true // text may contain & < > quotes (escaped by Render)
+	switch r.Intn(10) {
+	case 0, 1, 2:
+		el = []string{"pre", "listing", "textarea"}[r.Intn(3)]
+	case 3:
+		el = []string{"title", "div", "span"}[r.Intn(3)]
+	case 4, 5:
+		el = []string{"style", "script", "xmp", "iframe", "noembed", "noframes", "noscript"}[r.Intn(7)]
+		rich = false
+	case 6, 7:
+		open("svg:svg")
+		el = "svg:" + []string{"textarea", "g", "text", "a"}[r.Intn(4)]
+	case 8:
+		open("math:math")
+		el = "math:" + []string{"textarea", "mrow", "mi"}[r.Intn(3)]
+	default:
+		open("div")
+		el = []string{"pre", "listing", "textarea"}[r.Intn(3)]
+	}
+	if rich && r.Chance(1, 3) {
+		tail += []string{"&amp;", "<b>", "&#13;", "&#10;", "</textarea>", "</pre>", "\"'"}[r.Intn(7)]
+	}
+	open(el)
+	if r.Chance(1, 4) {
+		items = append(items, "@a="+vu.Hex([]byte(prefix+tail)))
+	}
+	items = append(items, "t"+vu.Hex([]byte(prefix+tail)))
+	for ; closeN > 0; closeN-- {
+		items = append(items, ">")
+	}
+	return "tree " + strings.Join(items, " ")
+}
+
 func genTree(r *vu.Rng) string {
 	var items []string
 	var rec func(depth int, lastText bool)
@@ -214,6 +257,8 @@ func gen(r *vu.Rng, i int) []string {
 		return []string{"html " + vu.Hex(genHTML(r))}
 	case 4, 5, 6:
 		return []string{genTok(r)}
+	case 7:
+		return []string{genTreeNL(r)}
 	default:
 		return []string{genTree(r)}
 	}
@@ -366,8 +411,22 @@ func buildTree(items []string) (*elem, bool) {
 	return root, len(stack) == 1
 }
 
+// splitNS: element names in tree ops are "div" (HTML) or "svg:g" / "math:mi" (foreign).
+func splitNS(name string) (ns, local string) {
+	if i := strings.IndexByte(name, ':'); i >= 0 {
+		return name[:i], name[i+1:]
+	}
+	return "", name
+}
+
+// literalText: HTML elements whose text children Render writes unescaped (render.go
+// childTextNodesAreLiteral); the tokenizer's CR/CRLF -> LF normalisation applies to that text.
+var literalText = map[string]bool{"style": true, "script": true, "xmp": true, "iframe": true,
+	"noembed": true, "noframes": true, "noscript": true}
+
 func toNode(e *elem) *html.Node {
-	n := &html.Node{Type: html.ElementNode, Data: e.name, DataAtom: atom.Lookup([]byte(e.name)), Attr: e.attrs}
+	ns, name := splitNS(e.name)
+	n := &html.Node{Type: html.ElementNode, Data: name, DataAtom: atom.Lookup([]byte(name)), Namespace: ns, Attr: e.attrs}
 	for _, k := range e.kids {
 		switch k := k.(type) {
 		case *elem:
@@ -402,7 +461,11 @@ func dumpWant(e *elem, sb *strings.Builder) {
 			flush()
 			dumpWant(k, sb)
 		case string:
-			text += strings.ReplaceAll(k, "\x00", "")
+			if literalText[e.name] {
+				text += normNewlines(k)
+			} else {
+				text += strings.ReplaceAll(k, "\x00", "")
+			}
 		}
 	}
 	flush()
@@ -410,7 +473,11 @@ func dumpWant(e *elem, sb *strings.Builder) {
 }
 
 func dumpGot(n *html.Node, sb *strings.Builder) {
-	fmt.Fprintf(sb, "<%s", n.Data)
+	if n.Namespace != "" {
+		fmt.Fprintf(sb, "<%s:%s", n.Namespace, n.Data)
+	} else {
+		fmt.Fprintf(sb, "<%s", n.Data)
+	}
 	for _, a := range sortedAttrs(n.Attr) {
 		if a.Namespace != "" {
 			fmt.Fprintf(sb, " %s:", a.Namespace)
